@@ -877,8 +877,6 @@ func checkProof(t *rapid.T, r *runner, qs [][]byte, ctx func() string) (*wire, p
 		t.Fatalf("Prove returned %d queries for %d query keys\n%s", len(p.Queries), len(qs), ctx())
 	}
 	w := wireOf(qs, p, r.root, L)
-	lip := true
-	modelKeys := msmt.Keys(L, r.kv)
 	for i, k := range qs {
 		q := w.Q[i]
 		if msmt.Present(r.kv, k) {
@@ -888,20 +886,20 @@ func checkProof(t *rapid.T, r *runner, qs [][]byte, ctx func() string) (*wire, p
 		} else if bytes.Equal(q.Key, k) && len(q.Value) != 0 {
 			t.Fatalf("proof shows a value for absent key %x: value=%x\n%s%s", k, q.Value, w, ctx())
 		}
-		a := msmt.QuerySorted(L, r.kv, modelKeys, k)
-		if !bytes.Equal(a.Key, q.Key) || !bytes.Equal(a.Value, q.Value) || !bytes.Equal(packBitmap(a.Bitmap), q.Bitmap) {
-			lip = false
-		}
 	}
 	if s := w.claims(r.kv, nil); s != "" {
 		t.Fatalf("honest proof asserts something false: %s\n%s%s", s, w, ctx())
 	}
-	if lip {
-		evid.R.Label("proof-answers:equal-LIP-0039-model(key,value,bitmap)", 1)
-	} else {
-		evid.R.Label("proof-answers:differ-from-model(observed,not-asserted)", 1)
-		evid.R.Note("Prove answer differs from the model's LIP-0039 answer (observation only): L=%d queries=%x", L, qs)
+	// Prove's output against the proof the reference model prescribes for these query keys (answers AND sibling
+	// hashes). Prove and Verify share helpers (query order, sibling test, bitmap packing): a change in one of them
+	// keeps Verify(Prove(keys)) true while both leave LIP-0039, and every soundness test built on model-assembled
+	// proofs (tamperings of this proof, forged_test.go, resplit_test.go) would then be rejected for the wrong reason.
+	mw := modelProof(L, r.kv, qs, r.root)
+	if d := w.diffFromModel(mw); d != "" {
+		t.Fatalf("Prove's proof differs from the LIP-0039 proof of the reference model (%s)\nProve: %s\nmodel: %s%s", d, w, mw, ctx())
 	}
+	evid.R.Label("proof-answers:equal-LIP-0039-model(key,value,bitmap,siblingHashes)", 1)
+	// (the proof verified below is therefore byte for byte the model's proof as well)
 	ok, verr, pv := w.verify()
 	if !ok || verr != nil || pv != nil {
 		if pathAlias(L, r.kv, qs) && evid.R.KnownFinding(sigPathAlias) {
@@ -948,6 +946,72 @@ func packBitmap(bm []bool) []byte {
 		}
 	}
 	return out
+}
+
+// modelProof is the proof LIP-0039 prescribes for the query keys, built from the reference model alone: the answer
+// to every key (msmt.QueryWithSiblings: key, value, bitmap, sibling hash per level) and the sibling-hash list in the
+// order the LIP-0039 verification loop consumes it (assembleSiblings: queue by height descending, then key; sibling
+// queries merge; queries ending in the same node count once). Nothing of pkg/trie/smt is involved.
+func modelProof(L int, kv map[string][]byte, qs [][]byte, root []byte) *wire {
+	m := &wire{Root: cp(root), L: L}
+	fqs := make([]*fq, 0, len(qs))
+	for _, k := range qs {
+		a := msmt.QueryWithSiblings(L, kv, k)
+		fqs = append(fqs, &fq{QK: cp(k), Key: a.Key, Value: a.Value, Bm: a.Bitmap, Sib: a.Siblings})
+		m.Keys = append(m.Keys, cp(k))
+		m.Q = append(m.Q, tq{cp(a.Key), cp(a.Value), packBitmap(a.Bitmap)})
+	}
+	for _, s := range assembleSiblings(fqs).sib {
+		m.Sib = append(m.Sib, cp(s))
+	}
+	return m
+}
+
+// diffFromModel compares a proof (as returned by Prove) with the model's proof for the same query keys; "" = equal in
+// every query (key, value, bitmap) and in the sibling-hash list (number, order, contents).
+func (w *wire) diffFromModel(m *wire) string {
+	if len(w.Q) != len(m.Q) {
+		return fmt.Sprintf("%d queries, model has %d", len(w.Q), len(m.Q))
+	}
+	for i := range w.Q {
+		a, b := w.Q[i], m.Q[i]
+		switch {
+		case !bytes.Equal(a.Key, b.Key):
+			return fmt.Sprintf("query %d (query key %x): key %x, model %x", i, m.Keys[i], a.Key, b.Key)
+		case !bytes.Equal(a.Value, b.Value):
+			return fmt.Sprintf("query %d (query key %x): value %x, model %x", i, m.Keys[i], a.Value, b.Value)
+		case !bytes.Equal(a.Bitmap, b.Bitmap):
+			return fmt.Sprintf("query %d (query key %x): bitmap %x, model %x", i, m.Keys[i], a.Bitmap, b.Bitmap)
+		}
+	}
+	if len(w.Sib) != len(m.Sib) {
+		return fmt.Sprintf("%d sibling hashes, model has %d", len(w.Sib), len(m.Sib))
+	}
+	for i := range w.Sib {
+		if !bytes.Equal(w.Sib[i], m.Sib[i]) {
+			return fmt.Sprintf("sibling hash %d is %x, model %x (same multiset in another order: %v)", i, w.Sib[i], m.Sib[i], sameHashSet(w.Sib, m.Sib))
+		}
+	}
+	return ""
+}
+
+func sameHashSet(a, b [][]byte) bool {
+	if len(a) != len(b) {
+		return false
+	}
+	n := map[string]int{}
+	for _, x := range a {
+		n[string(x)]++
+	}
+	for _, x := range b {
+		n[string(x)]--
+	}
+	for _, v := range n {
+		if v != 0 {
+			return false
+		}
+	}
+	return true
 }
 
 // ---------------------------------------------------------------------------------------------------------------
